@@ -243,3 +243,18 @@ Definition mark_attached (s : srv) (a : actor) : option srv :=
 
 Definition empty_srv (nopres : bool) (threshold : Z) : srv :=
   mkSrv [] 0 0 false nopres [] [] threshold.
+
+(* packs.Compact + memory CompactChangeInfos: refused while some client has the
+   document attached or attaching (unless forced); otherwise the log is replaced
+   by the single rebuilt change (or nothing for an empty document), the
+   version-vector rows and snapshots are purged, and the epoch is bumped.
+   [row] is the rebuilt change the implementation produced. *)
+Definition someone_attached (s : srv) : bool :=
+  existsb (fun ac => let st := cd_status (ci_doc (snd ac)) in
+                     dstatus_eqb st DAttached || dstatus_eqb st DAttaching) (s_clients s).
+
+Definition compact (s : srv) (force : bool) (row : option chdr) : option srv :=
+  if negb force && someone_attached s then None
+  else Some (mkSrv (match row with Some c => [mkSt 1 c] | None => [] end)
+                   (match row with Some _ => 1 | None => 0 end)
+                   (s_epoch s + 1) (s_removed s) (s_nopres s) (s_clients s) [] (s_threshold s)).
